@@ -4,8 +4,8 @@
 From Coq Require Import List ZArith Bool Lia.
 Import ListNotations.
 From Goat Require Import Model.Client Proofs.ClientBase Proofs.ClientInv Proofs.ClientWedge.
-From Goat Require Model.Server.
-From Goat Require Import Proofs.ServerCancel.
+From Goat Require Model.Server Model.Sys.
+From Goat Require Import Proofs.ServerCancel Proofs.SysCancel.
 Open Scope Z_scope.
 
 (* ---- client ---- *)
@@ -69,6 +69,20 @@ Theorem C11_server_returned : forall nw ls (s : Server.state) g kg,
   (exists f, Server.rd s = Server.RdRst f).
 Proof. exact ServerCancel.C11_srv_returned_l. Qed.
 Print Assumptions C11_server_returned.
+
+(* ---- end to end, on the product model Model/Sys.v ---- *)
+(* (Q) in every quiescent state of the system (both components quiescent, both wires empty, no handler at its gate) a
+   unary call - the probe - has returned, or is held by the environment at its yield point, or waits with a LIVE
+   context for a reply that does not exist anywhere (its queue and both wires are empty): whatever abandoned streams
+   did before. After its deadline it has returned. *)
+Theorem C11_sys_probe : forall pol ls (s : Sys.state) c k,
+  Sys.lrun pol Sys.init ls = Some s -> Sys.quiescent s = true ->
+  nth_error (calls (Sys.cl s)) c = Some k -> k_unary k = true ->
+  k_pc k = PRet \/ k_pc k = PParked \/
+  (k_pc k = PWait /\ ctx_done (k_ctx k) = false /\ cbuf (k_chan k) = None /\ cclosed (k_chan k) = false /\
+   Sys.s2c s = [] /\ Sys.c2s s = []).
+Proof. exact SysCancel.C11_sys_probe_l. Qed.
+Print Assumptions C11_sys_probe.
 
 (* ---- the hypotheses are met by non-trivial states ---- *)
 (* three responses for a stream nobody reads: one offered by the stream loop, one in the queue, the third holds
